@@ -479,3 +479,4 @@ def stub(*names):
 
 
 from . import aten_handlers  # noqa: E402,F401  (registers handlers)
+from . import backward_handlers  # noqa: E402,F401  (registers the backward-pass handlers)
